@@ -128,8 +128,18 @@ func runC01(c *eng.Ctx) {
 		// The element appended is an element of the input.
 	}
 
-	// R5.
-	if d := c.MustFunc("R5", corePkg, "differ.diff"); d != nil {
+	c01DiffRules(c, "R5")
+	c.Floor("R5", 5)
+
+	// R7: controller folds results.
+	if syn := c.MustFunc("R7", syncPkg, "controller.synchronize"); syn != nil {
+		c01FoldResults(c, "R7", syn)
+	}
+}
+
+// c01DiffRules decides the shape of differ.diff (shared with C07).
+func c01DiffRules(c *eng.Ctx, rule string) {
+	if d := c.MustFunc(rule, corePkg, "differ.diff"); d != nil {
 		n := 0
 		for _, b := range d.Blocks {
 			for _, st := range storesInBlock(b) {
@@ -139,14 +149,14 @@ func runC01(c *eng.Ctx) {
 				}
 				n++
 				g := eng.Guards(st)
-				c.Check("R5", "emit-under-inequality", st.Pos(), eng.HasAtom(g, `^\(\*synchronization/core\.Entry\)\.Equal\(p3, p2, false\)$`, false),
+				c.Check(rule, "emit-under-inequality", st.Pos(), eng.HasAtom(g, `^\(\*synchronization/core\.Entry\)\.Equal\(p3, p2, false\)$`, false),
 					"a change is emitted only where target and base differ (shallow)", eng.AtomsText(g))
 				if call, ok := st.Val.(*ssa.Call); ok {
 					if el := eng.AppendElems(call); len(el) == 1 {
 						if lit := eng.LitOf(el[0]); lit != nil {
 							f := eng.LitFields(lit)
 							ok := f["Path"] != nil && eng.Render(f["Path"]) == "p1" && f["Old"] != nil && eng.Render(f["Old"]) == "p2" && f["New"] != nil && eng.Render(f["New"]) == "p3"
-							c.Check("R5", "orientation", st.Pos(), ok, "the change is {Path: path, Old: base, New: target}")
+							c.Check(rule, "orientation", st.Pos(), ok, "the change is {Path: path, Old: base, New: target}")
 						}
 					}
 				}
@@ -159,20 +169,20 @@ func runC01(c *eng.Ctx) {
 						}
 					}
 				}
-				c.Check("R5", "no-descend-after-emit", st.Pos(), !rec, "after reporting a differing entry the differ does not descend into it")
+				c.Check(rule, "no-descend-after-emit", st.Pos(), !rec, "after reporting a differing entry the differ does not descend into it")
 			}
 		}
 		if n != 1 {
-			c.Problem("R5", "expected exactly one emission in differ.diff, found %d", n)
+			c.Problem(rule, "expected exactly one emission in differ.diff, found %d", n)
 		}
 		// The recursion covers the union of names of both sides.
 		for _, call := range eng.CallsTo(d, d) {
 			args := call.Common().Args
 			a2, a3 := eng.Render(args[2]), eng.Render(args[3])
 			ok := strings.Contains(a2, "GetContents(p2)") && strings.Contains(a3, "GetContents(p3)") && strings.Contains(a2, "nameUnion(") && strings.Contains(a3, "nameUnion(")
-			c.Check("R5", "recursion", call.Pos(), ok, "children are compared name by name over the union of both content maps", a2+" / "+a3)
+			c.Check(rule, "recursion", call.Pos(), ok, "children are compared name by name over the union of both content maps", a2+" / "+a3)
 			g := eng.Guards(call)
-			c.Check("R5", "recursion-under-equality", call.Pos(), eng.HasAtom(g, `^\(\*synchronization/core\.Entry\)\.Equal\(p3, p2, false\)$`, true), "descent only into entries that are shallowly equal")
+			c.Check(rule, "recursion-under-equality", call.Pos(), eng.HasAtom(g, `^\(\*synchronization/core\.Entry\)\.Equal\(p3, p2, false\)$`, true), "descent only into entries that are shallowly equal")
 		}
 		for _, call := range eng.CallsNamed(d, "synchronization/core.nameUnion") {
 			args := eng.VarargElems(call.Common())
@@ -181,14 +191,8 @@ func runC01(c *eng.Ctx) {
 				rs = append(rs, eng.Render(a))
 			}
 			ok := len(rs) == 2 && strings.Contains(strings.Join(rs, ","), "GetContents(p2)") && strings.Contains(strings.Join(rs, ","), "GetContents(p3)")
-			c.Check("R5", "union-of-both", call.Pos(), ok, "the name union ranges over base and target contents", strings.Join(rs, ","))
+			c.Check(rule, "union-of-both", call.Pos(), ok, "the name union ranges over base and target contents", strings.Join(rs, ","))
 		}
-	}
-	c.Floor("R5", 5)
-
-	// R7: controller folds results.
-	if syn := c.MustFunc("R7", syncPkg, "controller.synchronize"); syn != nil {
-		c01FoldResults(c, "R7", syn)
 	}
 }
 
